@@ -179,13 +179,13 @@ func (t DeployTransition) do(env *Environment) (err error) {
 
 		return*/
 
-	notifyStatus := make(chan task.Status)
+	notifyStatus := make(chan task.Status, 1) // buffered: an update sent while we are not yet (or not currently) receiving must not be lost
 	subscriptionId := uuid.NewUUID().String()
 	env.wfAdapter.SubscribeToStatusChange(subscriptionId, notifyStatus)
 	defer env.wfAdapter.UnsubscribeFromStatusChange(subscriptionId)
 
 	// listen to workflow State changes
-	notifyState := make(chan sm.State)
+	notifyState := make(chan sm.State, 1)
 	env.wfAdapter.SubscribeToStateChange(subscriptionId, notifyState)
 	defer env.wfAdapter.UnsubscribeFromStateChange(subscriptionId)
 
